@@ -54,7 +54,8 @@ pub fn run(ctx: &mut Ctx) {
     // ---------------- (a) data flow with an injected tape ----------------
     let rounds = if ctx.quick() { 40 } else { 600 };
     for r in 0..rounds {
-        let tape = rng.bytes(256);
+        // the first two rounds draw all-zero and all-ones bytes everywhere
+        let tape = match r { 0 => vec![0u8; 256], 1 => vec![0xffu8; 256], _ => rng.bytes(256) };
         // registration: salt = next 32 bytes
         let (v, used, log) = with_tape(&tape, || SrpVerifier::from_username_and_password(un.clone(), pn.clone()));
         let acct = match v { Some(a) => a, None => { flow_fail(ctx, "from_username_and_password panicked", &tape); continue; } };
